@@ -10,7 +10,7 @@ ID = "C18"
 LEVEL = "proof"
 LEAN_MODULES = ["Sonic.Props.C18", "Sonic.Props.C12"]
 REQUIRED_THEOREMS = ["Sonic.Props.C18." + n for n in ["C18_eq", "C18_eq_ordered", "C18_equiv", "C18_repr_independent", "C18_copy", "C18_reparse",
-                                                         "C18_asymmetric_dups"]]
+                                                         "C18_asymmetric_dups", "C18_reparse_model"]]
 CONFIGS = [("avx2", "prod"), ("avx2", "san"), ("sse", "prod"), ("dyn", "prod")]
 CONFIGS_THOROUGH = CONFIGS + [("sse", "san")]
 RULE = ("pairs of documents built through different histories: the same value assembled member by member in two documents with members "
